@@ -38,6 +38,8 @@ Inductive fop := FAdd | FSub | FMul | FDiv.
 Inductive dexpr :=
 | XInt (z : Z) | XVar (x : string) | XNilSlice | XNilAny
 | XBool (b : bool)
+| XMkRange (f t : dexpr)                        (* tensor.Range{From: f, To: t} *)
+| XMakeRanges (n : dexpr)                       (* make([]tensor.Range, n) *)
 | XMember (a x : dexpr)                         (* m[x] for a map[K]bool used as a set, held as the list of its keys *)
 | XIsNil (a : dexpr)                            (* a == nil for an interface / pointer value *)
 | XLen (a : dexpr) | XIdx (a i : dexpr) | XFrom (a : dexpr) | XTo (a : dexpr)
@@ -152,6 +154,16 @@ Fixpoint deval (g l : denv) (x : dexpr) {struct x} : option dval :=
   | XNilSlice => Some (DL [])
   | XNilAny => Some DNil
   | XBool b => Some (DB b)
+  | XMkRange f t =>
+      match deval g l f, deval g l t with
+      | Some (DI a), Some (DI b) => Some (DR a b)
+      | _, _ => None
+      end
+  | XMakeRanges n =>
+      match deval g l n with
+      | Some (DI z) => if 0 <=? z then Some (DL (repeat (DR 0 0) (Z.to_nat z))) else None
+      | _ => None
+      end
   | XMember a y =>
       match deval g l a, deval g l y with
       | Some (DL m), Some (DI z) =>
